@@ -12,6 +12,8 @@ import os
 import subprocess
 import sys
 
+import math
+
 import numpy as np
 from sklearn.tree import DecisionTreeRegressor
 
@@ -38,7 +40,9 @@ def meta(tier, seed):
                   "digest of the same script run alone in the same process; (b) equals the digest computed in the parent",
         "bounds": {"merges": 56, "interferers": ["same policy-tuple objects", "default-constructed tuples (subject too)",
                                                  "a TreeBandit bandit", "code that draws from and re-seeds numpy's and "
-                                                 "random's process-wide generators"],
+                                                 "random's process-wide generators",
+                                                 "a Clusters bandit trained on the very float64 array object the subject "
+                                                 "is trained on (contextual subjects)"],
                    "hash_seeds": ["0", "1", "4242", "random"],
                    "bandit_seeds": "101 + VERIF_SEED for every combination; additionally seed 0 for %d randomised ones" % len(ZERO_SEED),
                    "tree_driver": "three identical feature columns, one-hot queries, interferer seed = first seed whose "
@@ -129,6 +133,17 @@ def scripts(ln, nn, kind, seed):
         def g3():
             np.random.seed(None)
             np.random.randint(0, 10, size=3)
+    if kind == "shared":
+        # the interferer (k-means clustering, which centres its input) is trained on the very array object - float64,
+        # C-contiguous, non-dyadic values - that the subject is trained on: whatever it does with its input must not
+        # reach the subject through the caller's data
+        lp_i, np_i = LearningPolicy.EpsilonGreedy(0), NeighborhoodPolicy.Clusters(2)
+        icf = False
+        # generic reals (full mantissas): an in-place centring that is undone afterwards does not round-trip on them
+        d_ = len(x[0])
+        shared = np.ascontiguousarray([[math.sqrt(2 + 3 * i + j) * math.pi ** (j + 1) / (1 + i % 3) for j in range(d_)]
+                                       for i in range(len(x))], dtype=np.float64)
+        sq = np.ascontiguousarray(shared[:3] * 1.0001 + 0.01)
     if kind == "tree":
         lp_i, np_i = LearningPolicy.EpsilonGreedy(0), NeighborhoodPolicy.TreeBandit()
         icf, ix = False, XT
@@ -143,9 +158,13 @@ def scripts(ln, nn, kind, seed):
         E["s"] = MAB([1, 2], lp_s, np_s, seed=seed)
 
     def s_fit():
+        if kind == "shared":
+            return E["s"].fit(list(DEC), list(REW), shared)
         E["s"].fit(list(DEC), list(REW)) if cf else E["s"].fit(list(DEC), list(REW), [list(r) for r in x])
 
     def s_predict():
+        if kind == "shared":
+            return E["s"].predict(sq)
         return E["s"].predict() if cf else E["s"].predict([list(r) for r in q])
 
     def s_pfit():
@@ -168,6 +187,8 @@ def scripts(ln, nn, kind, seed):
             E["s"].partial_fit([2, 1], [1, 0], [list(x[1]), list(x[2])])
 
     def s_expect():
+        if kind == "shared":
+            return [E["s"].predict_expectations(sq), list(outs_extra)]
         e = E["s"].predict_expectations() if cf else E["s"].predict_expectations([list(r) for r in q])
         return [e, list(outs_extra)]
 
@@ -176,6 +197,8 @@ def scripts(ln, nn, kind, seed):
 
     def i_fit():
         d, r = [2, 2, 1, 1, 2, 1], [1, 0, 1, 1, 1, 0]
+        if kind == "shared":
+            return E["i"].fit(d, r, shared)
         E["i"].fit(d, r) if icf else E["i"].fit(d, r, [list(v) for v in reversed(ix)])
         if kind == "tree" or tree:
             E["i"].add_arm(7)
@@ -185,6 +208,8 @@ def scripts(ln, nn, kind, seed):
             E["i"].warm_start({1: [1.0, 0.0], 2: [0.0, 1.0], 7: [0.1, 1.0]}, 1.0)
 
     def i_predict():
+        if kind == "shared":
+            return E["i"].predict(sq)
         E["i"].predict() if icf else E["i"].predict([list(v) for v in ix[:2]])
     if kind == "global":
         return [s_construct, s_fit, s_predict, s_pfit, s_expect], [g1, g2, g3]
@@ -222,7 +247,9 @@ def all_merges():
 
 def part_a(shard, acc):
     ln, nn, seed = shard["ln"], shard["nn"], shard["seed"]
-    for kind in ("same", "default", "tree", "global"):
+    for kind in ("same", "default", "tree", "global", "shared"):
+        if kind == "shared" and (A.context_free(ln, nn) or nn == "tree"):
+            continue                      # no context array to share
         try:
             alone = run_merge(ln, nn, kind, seed, "SSSSS")
             again = run_merge(ln, nn, kind, seed, "SSSSS")
